@@ -516,6 +516,10 @@ class BalanceDomain(Domain):
 def pushing_functions(model):
     out = []
     for fi in model.all_funcs():
+        if getattr(fi, 'cm_method', False):
+            # __enter__/__exit__ of a context manager that normalise.N1
+            # rewrote to try/finally at every use: judged there
+            continue
         has = False
         counters = set()
         for n in own_nodes(fi.node):
